@@ -319,6 +319,24 @@ def resolve (eof : Bool) (r : Res × Res) : Res × Res :=
   let l3 := if l2 = .waiting then (if eof ∧ d2 = .waiting then .err .io else .err .timeout) else l2
   (d3, l3)
 
+/-! ## `negotiate_connection` around the handshake (src/transport/tcp/connection.rs) -/
+
+/-- Which side reports a connection (`NegotiatedConnection`), given the two handshake results:
+the dialer additionally applies the dialed-peer test; then both sides run the `/yamux/1.0.0` multistream negotiation
+over the `NoiseSocket`, an exchange in which each side needs the other's answer — it completes for a side only if
+the other side reached it as well (a side that failed has dropped the stream). -/
+def negotiateConn (dialed : Option PeerId) (r : Res × Res) : Bool × Bool :=
+  ((match r.1 with
+    | .ok P _ => (match negotiateCheck dialed P with
+      | .ok _ => true
+      | .error _ => false)
+    | _ => false) && r.2.isOk,
+   (match r.1 with
+    | .ok P _ => (match negotiateCheck dialed P with
+      | .ok _ => true
+      | .error _ => false)
+    | _ => false) && r.2.isOk)
+
 /-! ## The scripted man-in-the-middle of the correspondence runs -/
 
 inductive Act where
